@@ -261,10 +261,21 @@ def explore(ctx):
         if renamed:
             # production names from the lib: two glyphs collide on one name and a LATER glyph literally carries the name the
             # de-duplication hands out -- the name list of the font must still be one name per glyph
-            desc.setdefault("lib", {})["public.postscriptNames"] = {n3[0]: "dup", n3[1]: "dup", n3[2]: "dup.1"}
+            how = ["collision", "chain", "swap"][(i // 6) % 3]
+            desc.setdefault("lib", {})["public.postscriptNames"] = {
+                "collision": {n3[0]: "dup", n3[1]: "dup", n3[2]: "dup.1"},
+                # renames that CROSS (a glyph takes the source name of a glyph renamed after it): CFF keeps its outlines in a
+                # name-keyed table, which must still hold one charstring per glyph
+                "chain": {n3[0]: n3[1], n3[1]: n3[2], n3[2]: n3[2] + ".x"},
+                "swap": {n3[0]: n3[1], n3[1]: n3[0]}}[how]
+            if how != "collision":
+                flavor = "otf"
+                kw["optimizeCFF"] = [0, 2][(i // 18) % 2]
+                if any(g["name"] == ".notdef" and g["components"] for g in desc["glyphs"]):
+                    pass
             desc["glyphOrder"] = [g["name"] for g in desc["glyphs"]]
             kw["useProductionNames"] = True
-            ctx.klass("renamed through public.postscriptNames (collision + literal de-duplicated name)")
+            ctx.klass("renamed through public.postscriptNames (%s)" % how)
         if i % 6 == 4 and len(desc["glyphs"]) >= 2:
             # a stored glyph order that names glyphs twice (the second mention is ignored): still one metric per glyph
             base = [g["name"] for g in desc["glyphs"]]
